@@ -633,4 +633,422 @@ theorem mapSn_inv (es : List SnEntry) (s0 s s' : State) (now : Nat) (m m' : List
               obtain ⟨c, d⟩ := placeAll_inv _ s0 _ _ _ _ _ _ e.rq hi1 (ht.trans ht1) hgood hp
               exact ih _ _ c d h
 
+/-! ### `create_task_mapping`: multi-node placements -/
+
+theorem setMnAll_spec (l : List Nat) (s s' : State) (id : TaskId) (first : Bool) (h : setMnAll s id l first = .ok s') :
+    s'.tasks = s.tasks ∧ s'.redirects = s.redirects ∧ s'.rqs = s.rqs ∧ s'.queues = s.queues ∧
+    (∀ x, asgW s'.workers x = asgW s.workers x) ∧ (∀ x, preW s'.workers x = preW s.workers x) ∧
+    (∀ x, mnW s'.workers x = if x ∈ l then some id else mnW s.workers x) ∧ (∀ x ∈ l, mnW s.workers x = none) := by
+  induction l generalizing s first with
+  | nil =>
+    simp only [setMnAll] at h; cases h
+    exact ⟨rfl, rfl, rfl, rfl, fun _ => rfl, fun _ => rfl, fun _ => by simp, fun _ hx => by cases hx⟩
+  | cons w rest ih =>
+    simp only [setMnAll] at h
+    split at h
+    · cases h
+    · rename_i s1 hw
+      obtain ⟨wk, wk', hfw, hf, rfl⟩ := withWorker_spec hw
+      obtain ⟨⟨F, ha⟩, rfl⟩ := setMn_spec hf
+      have hwid : wk.id = w := findWorker_some_id hfw
+      have hfw' : findWorker s.workers ({ wk with assign := .mn id first false } : Worker).id = some wk := by
+        simpa [hwid] using hfw
+      obtain ⟨a, b, c, d, e, f, g, k⟩ := ih _ _ h
+      have hA : ∀ x, asgW (putWorker s.workers { wk with assign := .mn id first false }) x = asgW s.workers x :=
+        asgW_put_same hfw' (by simp [wAsg, ha])
+      have hP : ∀ x, preW (putWorker s.workers { wk with assign := .mn id first false }) x = preW s.workers x :=
+        preW_put_same hfw' (by simp [wPre, ha])
+      have hM : ∀ x, mnW (putWorker s.workers { wk with assign := .mn id first false }) x =
+          if x = w then some id else mnW s.workers x := by
+        intro x; rw [mnW_put hfw']; simp [wMn, hwid]
+      have hMw : mnW s.workers w = none := by rw [mnW_of_find hfw]; simp [wMn, ha]
+      refine ⟨a, b, c, d, fun x => (e x).trans (hA x), fun x => (f x).trans (hP x), ?_, ?_⟩
+      · intro x
+        rw [g x]
+        change (if x ∈ rest then some id else mnW (putWorker s.workers _) x) = _
+        rw [hM x]
+        by_cases h1 : x ∈ rest <;> by_cases h2 : x = w <;> simp [h1, h2]
+      · intro x hx
+        simp only [List.mem_cons] at hx
+        rcases hx with rfl | hx
+        · exact hMw
+        · have := k x hx
+          change mnW (putWorker s.workers _) x = none at this
+          rw [hM x] at this
+          split at this
+          · cases this
+          · exact this
+
+/-- a Waiting task becomes RunningMultiNode on workers that were free -/
+theorem LS3.mv_mn_place {ts ws ws' rd} (h : LS3 ts ws rd) {t' told : Task} {l : List Nat}
+    (ht : findTask ts t'.id = some told) (hf : Free3 ws rd t'.id) (hs' : t'.state = .runningMN l)
+    (hA : ∀ x, asgW ws' x = asgW ws x) (hP : ∀ x, preW ws' x = preW ws x)
+    (hM : ∀ x, mnW ws' x = if x ∈ l then some t'.id else mnW ws x) (hN : ∀ x ∈ l, mnW ws x = none) :
+    LS3 (putTask ts t') ws' rd := by
+  have hna := hf.na
+  have hnp := hf.np
+  have hnm := hf.nm
+  have hnr := hf.nr
+  refine h.frame t'.id ?_ ?_ ?_ ?_ (fun _ _ _ _ => Iff.rfl) ?_ ?_ ?_ ?_ h.d2 (fun x => by rw [hA]; exact h.nda x)
+    (fun x => by rw [hP]; exact h.ndp x)
+  all_goals simp only [stOf_put ht, hA, hP, hM]
+  · grind
+  · grind
+  · grind
+  · intro x u hu
+    by_cases hx : x ∈ l
+    · simp only [hx, if_true, hN x hx]
+      constructor
+      · intro e; cases e; exact absurd rfl hu
+      · intro e; cases e
+    · simp [hx]
+  · grind
+  · grind
+  · intro x hx
+    refine ⟨l, by simp [hs'], ?_⟩
+    by_cases hxl : x ∈ l
+    · exact hxl
+    · simp only [hxl, if_false] at hx
+      exact absurd hx (hnm x)
+  · grind
+
+theorem mapMnSets_inv (sets : List (List Nat)) (s0 s s' : State) (rq : Nat) (acc acc' : List TaskId)
+    (hq0 : QueueOk s0) (hmn : isMultiNodeRq s0.rqs rq = true) (hi : Inv s) (ht : Trk s0 s)
+    (h : s.mapMnSets rq sets acc = .ok (s', acc')) : Inv s' ∧ Trk s0 s' := by
+  induction sets generalizing s acc with
+  | nil => simp only [State.mapMnSets] at h; cases h; exact ⟨hi, ht⟩
+  | cons ws rest ih =>
+    simp only [State.mapMnSets] at h
+    split at h
+    · cases h
+    · rename_i q hq
+      split at h
+      · cases h
+      · rename_i p ids more hready
+        split at h
+        · cases h
+        · rename_i id ids'
+          split at h
+          · cases h
+          · rename_i s2 hset
+            obtain ⟨a, b, c, d, e, f, g, k⟩ := setMnAll_spec _ _ _ _ _ hset
+            split at h
+            · cases h
+            · rename_i task hgt
+              split at h
+              · cases h
+              · rename_i hst0
+                simp only [ne_eq, Decidable.not_not] at hst0
+                have hft2 : findTask s2.tasks id = some task := getTask_spec hgt
+                have hft : findTask s.tasks id = some task := by rw [a] at hft2; exact hft2
+                have hid : task.id = id := findTask_some_id hft
+                -- the popped id comes from the queue
+                have hidq : id ∈ qIds q := by
+                  rw [qIds_eq, hready, rIds_cons]; simp
+                obtain ⟨q0, hq0', hid0⟩ := ht.qsub rq q hq id hidq
+                have hgood : Good s rq id := ht.good (hq0 rq q0 hq0' id hid0)
+                obtain ⟨g1, g2⟩ := hgood task hft
+                have ht' : findTask s.tasks ({ task with state := .runningMN ws } : Task).id = some task := by
+                  rw [hid]; exact hft
+                have hfree : Free3 s.workers s.redirects id :=
+                  hi.ls.free_of_state (Or.inr (Or.inl ⟨0, by rw [stOf_of_find hft, hst0]⟩))
+                refine ih _ _ ?_ ?_ h
+                · show Inv4 (putTask s2.tasks _) s2.workers s2.redirects s2.rqs
+                  rw [a, b, c]
+                  change Inv4 (putTask s.tasks _) s2.workers s.redirects s.rqs
+                  refine hi.put_dispatch ht' rfl rfl (by simp only [hid]; exact g2) ?_ ?_
+                  · intro _ _
+                    rw [g1, ht.rqs]; exact hmn
+                  · exact hi.ls.mv_mn_place (t' := { task with state := .runningMN ws }) ht'
+                      (by show Free3 _ _ task.id; rw [hid]; exact hfree) rfl e f (by simpa [hid] using g) k
+                · refine ht.trans ?_
+                  have t1 : Trk s { s with queues := s.queues.set rq { q with ready := if ids'.isEmpty then more else (p, ids') :: more } } := by
+                    refine Trk.of_queue_set hq ?_
+                    intro x hx
+                    rw [qIds_eq] at hx ⊢
+                    simp only [List.mem_append] at hx ⊢
+                    rcases hx with h1 | h1
+                    · left
+                      rw [hready, rIds_cons]
+                      split at h1
+                      · exact List.mem_append.mpr (Or.inr h1)
+                      · rw [rIds_cons] at h1
+                        rcases List.mem_append.mp h1 with h2 | h2
+                        · exact List.mem_append.mpr (Or.inl (List.mem_cons_of_mem _ h2))
+                        · exact List.mem_append.mpr (Or.inr h2)
+                    · exact Or.inr h1
+                  refine t1.trans ?_
+                  refine (Trk.of_eq (s' := s2) a d c).trans ?_
+                  exact Trk.of_put (s' := s2.setTask { task with state := .runningMN ws }) (t' := { task with state := .runningMN ws })
+                    (told := task) (by rw [hid]; exact hft2) rfl rfl rfl rfl rfl
+
+theorem mapMn_inv (es : List MnEntry) (s0 s s' : State) (acc acc' : List TaskId)
+    (hq0 : QueueOk s0) (hmn : ∀ e ∈ es, isMultiNodeRq s0.rqs e.rq = true) (hi : Inv s) (ht : Trk s0 s)
+    (h : s.mapMn es acc = .ok (s', acc')) : Inv s' ∧ Trk s0 s' := by
+  induction es generalizing s acc with
+  | nil => simp only [State.mapMn] at h; cases h; exact ⟨hi, ht⟩
+  | cons e rest ih =>
+    simp only [State.mapMn] at h
+    split at h
+    · cases h
+    · rename_i s1 acc1 h1
+      obtain ⟨a, b⟩ := mapMnSets_inv _ s0 _ _ _ _ _ hq0 (hmn e (by simp)) hi ht h1
+      exact ih _ _ (fun e' he' => hmn e' (by simp [he'])) a b h
+
+/-! ### proactive filling -/
+
+theorem insertTid_sub (t : TaskId) (ids : List TaskId) (x : TaskId) (h : x ∈ insertTid t ids) : x = t ∨ x ∈ ids := by
+  induction ids with
+  | nil => simp only [insertTid, List.mem_singleton] at h; exact Or.inl h
+  | cons y ys ih =>
+    simp only [insertTid] at h
+    split at h
+    · exact Or.inr h
+    · split at h
+      · simp only [List.mem_cons] at h ⊢
+        rcases h with h | h | h
+        · exact Or.inl h
+        · exact Or.inr (Or.inl h)
+        · exact Or.inr (Or.inr h)
+      · simp only [List.mem_cons] at h ⊢
+        rcases h with h | h
+        · exact Or.inr (Or.inl h)
+        · rcases ih h with h1 | h1
+          · exact Or.inl h1
+          · exact Or.inr (Or.inr h1)
+
+theorem readyAdd_sub (ready : List (Int × List TaskId)) (t : TaskId) (p : Int) (x : TaskId)
+    (h : x ∈ rIds (readyAdd ready t p)) : x = t ∨ x ∈ rIds ready := by
+  induction ready with
+  | nil => simp only [readyAdd, rIds_cons, List.mem_append, List.mem_singleton] at h; rcases h with h | h; exact Or.inl h; cases h
+  | cons e rest ih =>
+    obtain ⟨q, ids⟩ := e
+    simp only [readyAdd] at h
+    split at h
+    · rw [rIds_cons, List.mem_append] at h
+      rw [rIds_cons, List.mem_append]
+      rcases h with h | h
+      · rcases insertTid_sub _ _ _ h with h1 | h1
+        · exact Or.inl h1
+        · exact Or.inr (Or.inl h1)
+      · exact Or.inr (Or.inr h)
+    · split at h
+      · rw [rIds_cons, List.mem_append, List.mem_singleton] at h
+        rcases h with h | h
+        · exact Or.inl h
+        · exact Or.inr h
+      · rw [rIds_cons, List.mem_append] at h
+        rw [rIds_cons, List.mem_append]
+        rcases h with h | h
+        · exact Or.inr (Or.inl h)
+        · rcases ih h with h1 | h1
+          · exact Or.inl h1
+          · exact Or.inr (Or.inr h1)
+
+theorem movePrefilledToReady_trk {s s' : State} {rq : Nat} {t : TaskId} (h : s.movePrefilledToReady rq t = .ok s') :
+    Trk s s' := by
+  simp only [State.movePrefilledToReady] at h
+  split at h
+  · cases h
+  · rename_i q hq
+    split at h
+    · cases h
+    · rename_i pp ts hpre
+      split at h
+      · cases h
+      · rename_i hc
+        simp only [Bool.not_eq_true, Bool.not_eq_false] at hc
+        have htm : t ∈ ts := by simpa using hc
+        cases h
+        refine Trk.of_queue_set hq ?_
+        intro x hx
+        rw [qIds_eq] at hx ⊢
+        simp only [List.mem_append, hpre] at hx ⊢
+        rcases hx with h1 | h1
+        · rcases readyAdd_sub _ _ _ _ h1 with h2 | h2
+          · subst h2; exact Or.inr htm
+          · exact Or.inl h2
+        · right
+          split at h1
+          · rename_i hh
+            split at hh
+            · cases hh
+            · cases hh; exact List.mem_of_mem_erase h1
+          · cases h1
+
+theorem prefillBack_spec (rq : Nat) (l : List TaskId) (s s' : State) (keep keep' : List TaskId)
+    (h : State.prefillWorker.back rq s l keep = .ok (s', keep')) :
+    CoreEq s s' ∧ Trk s s' ∧ ∀ x ∈ keep', x ∈ keep ∨ x ∈ l := by
+  induction l generalizing s keep with
+  | nil =>
+    simp only [State.prefillWorker.back] at h; cases h
+    exact ⟨CoreEq.refl _, Trk.refl _, fun x hx => Or.inl hx⟩
+  | cons id rest ih =>
+    simp only [State.prefillWorker.back] at h
+    split at h
+    · cases h
+    · split at h
+      · split at h
+        · cases h
+        · rename_i s2 hm
+          obtain ⟨a, b, c⟩ := ih _ _ h
+          refine ⟨(movePrefilledToReady_core hm).trans a, (movePrefilledToReady_trk hm).trans b, ?_⟩
+          intro x hx
+          rcases c x hx with h1 | h1
+          · exact Or.inl h1
+          · exact Or.inr (List.mem_cons_of_mem _ h1)
+      · obtain ⟨a, b, c⟩ := ih _ _ h
+        refine ⟨a, b, ?_⟩
+        intro x hx
+        rcases c x hx with h1 | h1
+        · rcases List.mem_append.mp h1 with h2 | h2
+          · exact Or.inl h2
+          · simp only [List.mem_singleton] at h2; subst h2; exact Or.inr (by simp)
+        · exact Or.inr (List.mem_cons_of_mem _ h1)
+
+theorem prefillMark_inv (w : Nat) (l : List TaskId) (s0 s s' : State) (i : Nat)
+    (hi : Inv s) (ht : Trk s0 s) (hg : ∀ id ∈ l, Good s0 i id)
+    (h : State.prefillWorker.mark w s l = .ok s') : Inv s' ∧ Trk s0 s' := by
+  induction l generalizing s with
+  | nil => simp only [State.prefillWorker.mark] at h; cases h; exact ⟨hi, ht⟩
+  | cons id rest ih =>
+    simp only [State.prefillWorker.mark] at h
+    split at h
+    · cases h
+    · rename_i task hgt
+      have hft : findTask s.tasks id = some task := getTask_spec hgt
+      have hid : task.id = id := findTask_some_id hft
+      split at h
+      · rename_i n hs
+        split at h
+        · cases h
+        · rename_i s2 hw
+          obtain ⟨wk, wk', hfw, hf, rfl⟩ := withWorker_spec hw
+          obtain ⟨A, F, P, ha, hnm, rfl⟩ := insertPrefill_spec hf
+          change findWorker s.workers w = some wk at hfw
+          have hwid : wk.id = w := findWorker_some_id hfw
+          have ht' : findTask s.tasks ({ task with state := .prefilled w } : Task).id = some task := by
+            rw [hid]; exact hft
+          have hfree : Free3 s.workers s.redirects id :=
+            hi.ls.free_of_state (Or.inr (Or.inl ⟨n, by rw [stOf_of_find hft, hs]⟩))
+          obtain ⟨g1, g2⟩ := ht.good (hg id (by simp)) task hft
+          refine ih _ ?_ ?_ (fun x hx => hg x (by simp [hx])) h
+          · show Inv4 (putTask s.tasks _) (putWorker s.workers _) s.redirects s.rqs
+            refine hi.put_dispatch ht' rfl rfl (by simp only [hid]; exact g2) (by simp) ?_
+            exact hi.ls.mv_prefill (wk := wk) ht' (by show Free3 _ _ task.id; rw [hid]; exact hfree) (by simp [hwid])
+              (by simpa [hwid] using hfw) (by simp [wAsg, ha]) (by simp [wPre, ha, hid]) (by simp [wMn, ha])
+          · exact ht.trans (Trk.of_put ht' rfl rfl rfl rfl rfl)
+      · cases h
+
+theorem prefillWorker_inv {s0 s s' : State} {m m' : List WUpdate} {rq size w : Nat}
+    (hq0 : QueueOk s0) (hi : Inv s) (ht : Trk s0 s)
+    (h : s.prefillWorker m rq size w = .ok (s', m')) : Inv s' ∧ Trk s0 s' := by
+  simp only [State.prefillWorker] at h
+  split at h
+  · cases h
+  · rename_i q hq
+    split at h
+    · cases h
+    · rename_i p ids0 more hready
+      split at h
+      · cases h
+      · rename_i pf hpf
+        -- the new prefill set consists of ids of the queue
+        have hsub : ∀ x ∈ qIds ({ ready := (takeFromFirst q.ready size).1, prefill := some pf } : Queue), x ∈ qIds q := by
+          intro x hx
+          rw [qIds_eq] at hx ⊢
+          simp only [List.mem_append] at hx ⊢
+          rcases hx with h1 | h1
+          · exact Or.inl ((takeFromFirst_sub q.ready size x).1 h1)
+          · split at hpf
+            · rename_i pp ts hpre
+              split at hpf
+              · cases hpf
+              · cases hpf
+                simp only [hpre]
+                rcases List.mem_append.mp h1 with h2 | h2
+                · exact Or.inr h2
+                · exact Or.inl ((takeFromFirst_sub q.ready size x).2 h2)
+            · cases hpf
+              exact Or.inl ((takeFromFirst_sub q.ready size x).2 h1)
+        have ht1 := Trk.of_queue_set (q' := { ready := (takeFromFirst q.ready size).1, prefill := some pf }) hq hsub
+        split at h
+        · cases h
+        · rename_i s2 keep hb
+          obtain ⟨a, b, c⟩ := prefillBack_spec _ _ _ _ _ _ hb
+          split at h
+          · cases h
+          · rename_i s3 hm
+            cases h
+            have hi2 : Inv s2 := a.inv hi
+            refine prefillMark_inv w keep s0 s2 _ rq hi2 ((ht.trans ht1).trans b) ?_ hm
+            intro id hid
+            rcases c id hid with h1 | h1
+            · cases h1
+            · have : id ∈ qIds q := by
+                rw [qIds_eq]; exact List.mem_append.mpr (Or.inl ((takeFromFirst_sub q.ready size id).2 h1))
+              obtain ⟨q0, hq0', hid0⟩ := ht.qsub rq q hq id this
+              exact hq0 rq q0 hq0' id hid0
+
+theorem prefillWorkers_inv (ws : List Nat) (s0 s s' : State) (m m' : List WUpdate) (rq size : Nat)
+    (hq0 : QueueOk s0) (hi : Inv s) (ht : Trk s0 s)
+    (h : s.prefillWorkers m rq size ws = .ok (s', m')) : Inv s' ∧ Trk s0 s' := by
+  induction ws generalizing s m with
+  | nil => simp only [State.prefillWorkers] at h; cases h; exact ⟨hi, ht⟩
+  | cons w rest ih =>
+    simp only [State.prefillWorkers] at h
+    split at h
+    · cases h
+    · rename_i s1 m1 h1
+      obtain ⟨a, b⟩ := prefillWorker_inv hq0 hi ht h1
+      exact ih _ _ a b h
+
+theorem proactive_inv (n : Nat) (s0 s s' : State) (m m' : List WUpdate) (orders : List (Nat × List Nat)) (top : Int)
+    (rq : Nat) (hq0 : QueueOk s0) (hi : Inv s) (ht : Trk s0 s)
+    (h : s.proactive m orders top n rq = .ok (s', m')) : Inv s' ∧ Trk s0 s' := by
+  induction n generalizing s m rq with
+  | zero => simp only [State.proactive] at h; cases h; exact ⟨hi, ht⟩
+  | succ k ih =>
+    simp only [State.proactive] at h
+    repeat' (split at h)
+    all_goals first
+      | (cases h; done)
+      | (cases h; exact ⟨hi, ht⟩)
+      | exact ih _ _ _ hi ht h
+      | (rename_i s1 m1 h1
+         obtain ⟨a, b⟩ := prefillWorkers_inv _ s0 _ _ _ _ _ _ hq0 hi ht h1
+         exact ih _ _ _ a b h)
+
+/-! ### one scheduling round -/
+
+/-- side condition of a `schedule` operation on the solution: multi-node placements only for multi-node requests -/
+def SolMnOk (s : State) (sol : Solution) : Prop := ∀ e ∈ sol.mn, isMultiNodeRq s.rqs e.rq = true
+
+instance (s : State) (sol : Solution) : Decidable (SolMnOk s sol) := by unfold SolMnOk; infer_instance
+
+theorem schedule_inv {s s' : State} {sol : Solution} {o : Out} (hi : Inv s) (hq : QueueOk s) (hm : SolMnOk s sol)
+    (h : s.schedule sol = .ok (s', o)) : Inv s' := by
+  simp only [State.schedule] at h
+  split at h
+  · cases h
+  · rename_i s1 m1 h1
+    obtain ⟨a1, b1⟩ := mapSn_inv _ s _ _ _ _ _ hq hi (Trk.refl s) h1
+    split at h
+    · cases h
+    · rename_i s2 mnTasks h2
+      obtain ⟨a2, b2⟩ := mapMn_inv _ s _ _ _ _ hq hm a1 b1 h2
+      split at h
+      · cases h
+      · rename_i s3 m3 h3
+        have a3 : Inv s3 := by
+          split at h3
+          · cases h3; exact a2
+          · exact (proactive_inv _ s _ _ _ _ _ _ _ hq a2 b2 h3).1
+        split at h
+        · cases h
+        · split at h
+          · cases h
+          · cases h
+            exact a3
+
 end HqModel.Core
